@@ -224,6 +224,44 @@ pub fn cases(thorough: bool) -> Vec<Case> {
         }
         cs.push(Case { label: format!("mult100 x{}", n), probes: p });
     }
+    for n in 262..=282usize {
+        // the constant delta already starts during the warm-up (the stuck test must start from a blank
+        // history at probe 100 whatever the warm-up measured)
+        for start in [0usize, 90, 98, 99] {
+            let mut p = base.clone();
+            for j in start..100 + n {
+                p[j].d = 1001;
+            }
+            cs.push(Case { label: format!("const-delta from probe {} x{}", start, n), probes: p });
+        }
+        // one delta a at probe 100, then 2a constant: third difference zero at probe 101 only with a blank history
+        let mut p = base.clone();
+        p[100].d = 1001;
+        for j in 0..n {
+            p[101 + j].d = 2002;
+        }
+        cs.push(Case { label: format!("a then 2a x{}", n), probes: p });
+        // multiples of 100 of which three sit on backward (tolerated) probes
+        let mut p = base.clone();
+        for j in 0..n {
+            p[100 + j].d = 100 * (11 + ((j * j + 3 * j) % 23) as i64);
+        }
+        for j in [5usize, 50, 150] {
+            p[100 + j].d = -100 * (7 + j as i64 % 5);
+        }
+        cs.push(Case { label: format!("mult100 x{} with 3 backward", n), probes: p });
+        // raw differences that are multiples of 100 while the truncated 32-bit deltas are not, and vice versa
+        let mut p = base.clone();
+        for j in 0..n {
+            p[100 + j].d = (1i64 << 32) + 4 + 100 * ((j * j + 5 * j) % 37) as i64;
+        }
+        cs.push(Case { label: format!("raw-mult100 (2^32+4+100m) x{}", n), probes: p });
+        let mut p = base.clone();
+        for j in 0..n {
+            p[100 + j].d = (1i64 << 32) + 100 * (3 + (j * j + 5 * j) % 37) as i64;
+        }
+        cs.push(Case { label: format!("trunc-mult100 (2^32+100m) x{}", n), probes: p });
+    }
     for i in [0usize, 1, 99, 100, 101, 250, 398, 399] {
         for (kind, f) in [("time=0", 0), ("time2=0", 1), ("delta=0", 2), ("delta=2^32", 3), ("delta=-2^32", 4)] {
             let mut p = base.clone();
